@@ -279,7 +279,8 @@ def run_one(ck, prog):
 
             def is_dir_const(x):
                 return mentions(x, ctx.prov, lambda z: (z[0] == "agg" and z[2] == "Directory") or (z[0] == "const" and ((len(z) > 4 and z[4] and z[4][0] == dir_idx) or z[1] == dir_idx)))
-            is_dir = any(f[0] == "truth" and isinstance(f[1], tuple) and f[1][0] == "call" and "PartialEq" in (f[1][1] or "") and
+            is_dir_variant = any(f[0] == "variant" and f[2] == "Directory" and mentions(f[1], ctx.prov, lambda z: z[0] == "call" and (z[1] or "").endswith("file_type")) for f in facts)
+            is_dir = is_dir_variant or any(f[0] == "truth" and isinstance(f[1], tuple) and f[1][0] == "call" and "PartialEq" in (f[1][1] or "") and
                          (((f[1][1] or "").endswith("::eq") and f[2] is True) or ((f[1][1] or "").endswith("::ne") and f[2] is False)) and
                          any(is_dir_const(x) for x in f[1][2]) and
                          any(mentions(x, ctx.prov, lambda z: z[0] == "call" and (z[1] or "").endswith("file_type")) for x in f[1][2]) for f in facts)
@@ -358,6 +359,9 @@ def run_one(ck, prog):
                     v = fold(ctx.prov.rvalue(s["rv"], (b["id"], i)))
                     facts = panics.dominating_facts(ctx, b["id"])
                     empty = any(f[0] == "cmp" and f[1] == "Eq" and ((mentions(f[2], ctx.prov, is_gd) and fold(f[3]) == 0) or (mentions(f[3], ctx.prov, is_gd) and fold(f[2]) == 0)) for f in facts)
+                    # the count is unsigned: `read < 1` / `read <= 0` / `1 > read` say the same
+                    empty = empty or any(f[0] == "cmp" and ((f[1] == "Lt" and mentions(f[2], ctx.prov, is_gd) and fold(f[3]) == 1) or (f[1] == "Le" and mentions(f[2], ctx.prov, is_gd) and fold(f[3]) == 0) or
+                                                            (f[1] == "Gt" and mentions(f[3], ctx.prov, is_gd) and fold(f[2]) == 1) or (f[1] == "Ge" and mentions(f[3], ctx.prov, is_gd) and fold(f[2]) == 0)) for f in facts)
                     failed = any(f[0] == "variant" and f[2] == "Err" and mentions(f[1], ctx.prov, is_gd) for f in facts)
                     ck.ob("C14.6", f"end-declared-only-on-empty-read-or-error|eod#{n_eod}", v == 1 and (empty or failed), fn=nx[0]["path"], site=ctx.site(b["id"]),
                           detail="`eod` may only be set when get_dents returned 0 bytes or failed; deciding the end from how full the buffer is drops entries whose record did not fit")
@@ -412,7 +416,9 @@ def run_one(ck, prog):
                     stores.append((b["id"], i, st))
                 if st["k"] == "assign" and st["rv"]["k"] in ("ref", "rawptr") and st["rv"].get("m") not in (False, None, "Const") and st["rv"].get("p", {}).get("l") in name_locals:
                     bulk.append(b["id"])
-        ck.ob("C14.6", "dirent-name|anchor", len(name_locals) == 1 and len(stores) >= 1, fn=tb["path"], detail=f"name buffers {len(name_locals)}, element stores {len(stores)}")
+        # one buffer is filled element by element; a second local of that type (the result slot of an expanded helper) only receives it whole
+        filled = {st["dst"]["l"] for _, _, st in stores}
+        ck.ob("C14.6", "dirent-name|anchor", len(name_locals) >= 1 and len(filled) == 1 and len(stores) >= 1, fn=tb["path"], detail=f"name buffers {len(name_locals)}, filled element-wise {len(filled)}, element stores {len(stores)}")
         ck.ob("C14.6", "dirent-name|written-only-element-by-element", not bulk, fn=tb["path"], site=tctx.site(bulk[0]) if bulk else None,
               detail="the name array is handed out mutably (a bulk copy): the number of bytes copied is then decided elsewhere, not by comparing each byte with NUL")
         for bb_, i_, st in stores:
